@@ -97,7 +97,9 @@ func (r *MMapReader) SeekNext(offset uint64) (uint64, []byte, error) {
 				}
 			}
 			if ix-i < len(MagicNumberSeparatorLongBytes) {
-				i = ix + 1
+				// only the byte at i is ruled out as the start of a marker: a partial match can overlap with the real marker,
+				// e.g. a payload that ends with 0x91 right before the next record
+				i = i + 1
 				continue
 			}
 
